@@ -285,10 +285,28 @@ theorem run_conserve {α : Type} (d : Nat) (prog : Prog α) :
     · rw [ih]; exact phase_conserve d ws P T st
     · exact phase_conserve d ws P T st
 
+/-- the operation has a deadline that is not already behind it: it starts by creating its own
+    context / timer, or the one it inherits has not passed -/
+def Fresh {α : Type} : Prog α → St → Prop
+  | .io _ _ (some _) _, _ => True
+  | _, st => st.now ≤ st.deadline
+
+theorem fresh_of_le {α : Type} (prog : Prog α) (st : St) (h : st.now ≤ st.deadline) : Fresh prog st := by
+  cases prog with
+  | ret r => exact h
+  | fail e => exact h
+  | io ws P T k => cases T <;> first | exact h | trivial
+
+theorem now_le_phaseDeadline' {α : Type} (ws : List Bytes) (P : Bytes → Bool) (T : Option Nat)
+    (k : Bytes → Prog α) (st : St) (h : Fresh (.io ws P T k) st) : st.now ≤ phaseDeadline T st := by
+  cases T with
+  | none => exact h
+  | some T => exact Nat.le_add_right _ _
+
 /-- every timeout is returned inside `[deadline, deadline + d)` of the deadline in force, and
     every other return happens before it -/
 theorem run_time {α : Type} (d : Nat) (hd : 0 < d) (prog : Prog α) :
-    ∀ st : St, st.now ≤ st.deadline →
+    ∀ st : St, Fresh prog st →
       st.now ≤ (run d prog st).2.now ∧
       match (run d prog st).1 with
       | .timeout => (run d prog st).2.deadline ≤ (run d prog st).2.now ∧
@@ -300,14 +318,14 @@ theorem run_time {α : Type} (d : Nat) (hd : 0 < d) (prog : Prog α) :
   | io ws P T k ih =>
     intro st h
     rw [run_io]
-    have hle := now_le_phaseDeadline T st h
+    have hle := now_le_phaseDeadline' ws P T k st h
     obtain ⟨a, b, c⟩ := readUntilT_time P d (phaseDeadline T st) hd (st.pend ++ st.rs.headD []) st.now []
     cases hok : (phaseRead d P T st).ok with
     | true =>
       simp only [if_true]
       have hlt : (phaseRead d P T st).t < phaseDeadline T st := b hok
       have hst : (phaseSt d ws P T st).now ≤ (phaseSt d ws P T st).deadline := Nat.le_of_lt hlt
-      obtain ⟨i1, i2⟩ := ih (phaseRead d P T st).rb (phaseSt d ws P T st) hst
+      obtain ⟨i1, i2⟩ := ih (phaseRead d P T st).rb (phaseSt d ws P T st) (fresh_of_le _ _ hst)
       have a' : st.now ≤ (phaseSt d ws P T st).now := a
       exact ⟨Nat.le_trans a' i1, i2⟩
     | false =>
